@@ -177,6 +177,10 @@ type fidRef struct {
 	// The node above will be closed only when refs reaches zero.
 	refs int64
 
+	// openedMu serializes Tlopen on this fidRef, so that the opened test,
+	// File.Open and the update of opened are one step.
+	openedMu sync.Mutex
+
 	// opened indicates whether this has been opened already.
 	//
 	// This is updated in handlers.go.
